@@ -46,6 +46,39 @@ macro_rules! probe {
 probe!(Probe, MProbe, 1);
 probe!(Probe2, MProbe2, 2);
 
+/// A member type with an INHERENT `update` (one draw) besides its trait impl (two draws): the hand-written sequence
+/// `self.x.update(env, rng)` resolves to the inherent method, and so must the derived code.
+pub struct Probe3 { tag: u32, log: Log }
+impl Probe3 {
+    pub fn new(log: &Log, next: &mut u32) -> Self { let tag = *next; *next += 1; Self { tag, log: log.clone() } }
+    pub fn update<R: RngCore>(&mut self, env: &mut Env, rng: &mut R) {
+        let d = rng.next_u64();
+        self.log.borrow_mut().push((self.tag, d, env.get_orders().len()));
+        env.place_order(Side::Bid, 1, self.tag, Some(10)).unwrap();
+    }
+}
+impl Agent for Probe3 {
+    fn update<R: RngCore>(&mut self, env: &mut Env, rng: &mut R) {
+        let _ = rng.next_u64();
+        Probe3::update(self, env, rng);
+    }
+}
+pub struct MProbe3 { tag: u32, log: Log }
+impl MProbe3 {
+    pub fn new(log: &Log, next: &mut u32) -> Self { let tag = *next; *next += 1; Self { tag, log: log.clone() } }
+    pub fn update<R: RngCore, const M: usize, const N: usize>(&mut self, env: &mut MarketEnv<M, N>, rng: &mut R) {
+        let d = rng.next_u64();
+        self.log.borrow_mut().push((self.tag, d, env.get_orders(0).len()));
+        env.place_order(0, Side::Bid, 1, self.tag, Some(10)).unwrap();
+    }
+}
+impl MarketAgent for MProbe3 {
+    fn update<R: RngCore, const M: usize, const N: usize>(&mut self, env: &mut MarketEnv<M, N>, rng: &mut R) {
+        let _ = rng.next_u64();
+        MProbe3::update(self, env, rng);
+    }
+}
+
 fn log_s(l: &Log) -> String {
     let v = l.borrow();
     if v.is_empty() { return "-".into(); }
